@@ -1228,3 +1228,299 @@ Proof.
       apply go_first_fails. apply IH0. }
   intros k name. apply K.
 Qed.
+
+(* ------------------------------------------------------------------ resolution that avoids one link slot *)
+(** a slot = (file, group object, member name).  [walk_av s] is [walk] that refuses to look up slot s:
+    a Found result certifies that the traversal never passed through s (decidable on the store). *)
+Definition slot := (fid * nat * string)%type.
+Definition slot_eqb (s : slot) (f : fid) (o : nat) (n : string) : bool :=
+  fid_eqb (fst (fst s)) f && Nat.eqb (snd (fst s)) o && S.eqb (snd s) n.
+
+Fixpoint walk_av (s : slot) (fuel : nat) (w : world) (x : bool) (f : fid) (o : nat) (p : path) : res :=
+  match fuel with
+  | O => Loop
+  | S k =>
+    match p with
+    | [] => Found f o
+    | n :: rest =>
+      if slot_eqb s f o n then Missing false else
+      match obj_at w f o with
+      | Some (Group _ ls) =>
+        match assoc n ls with
+        | None => Missing (negb x && negb (is_nil rest))
+        | Some (Hard o') => walk_av s k w x f o' rest
+        | Some (Soft q) => walk_av s k w x f O (q ++ rest)
+        | Some (Ext f' q) => if file_exists w f' then walk_av s k w true f' O (q ++ rest) else Missing false
+        end
+      | _ => Missing (negb x)
+      end
+    end
+  end.
+
+Lemma walk_av_walk : forall s k w x f o p f1 o1,
+  walk_av s k w x f o p = Found f1 o1 -> walk k w x f o p = Found f1 o1.
+Proof.
+  induction k; simpl; intros w x f o p f1 o1 H; try discriminate.
+  destruct p as [|n rest]; auto.
+  destruct (slot_eqb s f o n); try discriminate.
+  destruct (obj_at w f o) as [[a ls|d]|]; try discriminate.
+  destruct (assoc n ls) as [l|]; try discriminate. destruct l; eauto.
+  destruct (file_exists w f0); try discriminate. eauto.
+Qed.
+
+Lemma walk_av_mono : forall s k w w' x f o p f1 o1, world_le w w' ->
+  walk_av s k w x f o p = Found f1 o1 -> walk_av s k w' x f o p = Found f1 o1.
+Proof.
+  induction k; simpl; intros w w' x f o p f1 o1 H Hw; try discriminate.
+  destruct p as [|n rest]; auto.
+  destruct (slot_eqb s f o n); try discriminate.
+  destruct (obj_at w f o) as [[a ls|d]|] eqn:E; try discriminate.
+  destruct (world_le_obj _ _ _ _ _ H E) as (y & Ey & Ly). rewrite Ey.
+  destruct y as [a' ls'|]; simpl in Ly; try tauto. destruct Ly as [_ Ly].
+  destruct (assoc n ls) as [l|] eqn:El; try discriminate.
+  rewrite (Ly _ _ El). destruct l; eauto.
+  destruct (file_exists w f0) eqn:Ex; try discriminate.
+  rewrite (world_le_exists _ _ _ H Ex). eauto.
+Qed.
+
+(** [unlinked s w w']: w' is w with the member of slot s removed, nothing else touched *)
+Definition unlinked (s : slot) (w w' : world) : Prop :=
+  let '(fs, gs, n) := s in
+  exists a ls, obj_at w fs gs = Some (Group a ls) /\ w' = set_obj w fs gs (Group a (remove_key n ls)).
+
+Lemma unlinked_obj : forall fs gs n w w' f o, unlinked (fs, gs, n) w w' ->
+  (f <> fs \/ o <> gs) -> obj_at w' f o = obj_at w f o.
+Proof.
+  intros fs gs n w w' f o (a & ls & E & ->) Hne. unfold obj_at, set_obj in *.
+  destruct (get_store w fs) as [st|] eqn:Es; try discriminate.
+  destruct (fid_dec fs f) as [<-|Nf].
+  - rewrite get_set_same, Es. destruct Hne as [?|No]; [congruence|]. now rewrite nth_error_upd_other by auto.
+  - now rewrite get_set_other by auto.
+Qed.
+
+Lemma unlinked_exists : forall s w w' f, unlinked s w w' -> file_exists w' f = file_exists w f.
+Proof.
+  intros [[fs gs] n] w w' f (a & ls & E & ->). unfold file_exists, set_obj, obj_at in *.
+  destruct (get_store w fs) as [st|] eqn:Es; try discriminate.
+  destruct (fid_dec fs f) as [<-|Nf]; [now rewrite get_set_same, Es|now rewrite get_set_other by auto].
+Qed.
+
+(** frame of an unlink: a traversal that avoided the slot resolves exactly as before *)
+Lemma walk_av_unlinked : forall fs gs n k w w' x f o p f1 o1, unlinked (fs, gs, n) w w' ->
+  walk_av (fs, gs, n) k w x f o p = Found f1 o1 -> walk k w' x f o p = Found f1 o1.
+Proof.
+  induction k; simpl; intros w w' x f o p f1 o1 U H; try discriminate.
+  destruct p as [|m rest]; auto.
+  destruct (slot_eqb (fs, gs, n) f o m) eqn:Esl; try discriminate.
+  assert (forall f', file_exists w' f' = file_exists w f') as Hex by (intro f'; exact (unlinked_exists (fs, gs, n) w w' f' U)).
+  destruct (fid_dec f fs) as [->|Nf]; [destruct (Nat.eq_dec o gs) as [->|No]|].
+  - (* the group of the slot itself: another member name *)
+    destruct U as (a & ls & E & ->). rewrite E in H. erewrite set_obj_at by eauto.
+    assert (n <> m) as Nm.
+    { intro; subst m. unfold slot_eqb in Esl. simpl in Esl.
+      rewrite (proj2 (fid_eqb_eq fs fs) eq_refl), Nat.eqb_refl, eqb_refl' in Esl. discriminate. }
+    rewrite assoc_remove_other by auto.
+    assert (unlinked (fs, gs, n) w (set_obj w fs gs (Group a (remove_key n ls)))) as U' by (exists a, ls; auto).
+    destruct (assoc m ls) as [l|]; try discriminate. destruct l; eauto.
+    rewrite Hex. destruct (file_exists w f); try discriminate. eauto.
+  - rewrite (unlinked_obj _ _ _ _ _ fs o U) by auto.
+    destruct (obj_at w fs o) as [[a ls|d]|]; try discriminate.
+    destruct (assoc m ls) as [l|]; try discriminate. destruct l; eauto.
+    rewrite Hex. destruct (file_exists w f); try discriminate. eauto.
+  - rewrite (unlinked_obj _ _ _ _ _ f o U) by auto.
+    destruct (obj_at w f o) as [[a ls|d]|]; try discriminate.
+    destruct (assoc m ls) as [l|]; try discriminate. destruct l; eauto.
+    rewrite Hex. destruct (file_exists w f0); try discriminate. eauto.
+Qed.
+
+Lemma del_link_ok : forall w f p w', del_link w f p = (Ok, w') ->
+  exists par n fp gp, split_last p = Some (par, n) /\ resolve w f par = Found fp gp /\
+                      unlinked (fp, gp, n) w w' /\ lookup_link w' fp gp n = None.
+Proof.
+  unfold del_link; intros w f p w' H.
+  destruct (split_last p) as [[par n]|]; try discriminate.
+  destruct (resolve w f par) as [fp gp| |] eqn:Er; try discriminate.
+  destruct (obj_at w fp gp) as [[a ls|]|] eqn:Eg; try discriminate.
+  destruct (assoc n ls) eqn:En; try discriminate. injection H as <-.
+  exists par, n, fp, gp. repeat split; auto.
+  - exists a, ls. auto.
+  - unfold lookup_link. erewrite set_obj_at by eauto. apply assoc_remove_same.
+Qed.
+
+(* ------------------------------------------------------------------ mv, guarded *)
+(** the decidable guard: in the store AFTER the new hard link is made, the traversal of the destination
+    path does not pass through the source's own link slot (parent group of the source, source name).
+    It fails exactly for destinations inside the moved group or behind a link back to it (D23). *)
+Definition mv_guard (w : world) (f : fid) (sp dp : path) : bool :=
+  match resolve w f sp with
+  | Found fo o =>
+      match add_link w f dp (Hard o) fo EOS EOS, split_last sp with
+      | (Ok, w2), Some (par, n) =>
+          match resolve w2 f par with
+          | Found fp gp =>
+              match walk_av (fp, gp, n) FUEL w2 false f 0 dp with
+              | Found f1 o1 => fid_eqb f1 fo && Nat.eqb o1 o
+              | _ => false
+              end
+          | _ => false
+          end
+      | _, _ => false
+      end
+  | _ => false
+  end.
+
+(** mv_spec: for a same-file mv that succeeds and passes the guard, the destination resolves to THE VERY
+    OBJECT the source denoted, the source name is unbound, and every traversal (from any start object, of
+    any path) that did not pass through the source's link slot resolves exactly as before *)
+Theorem mv_spec : forall w f sp dp w',
+  _copy w f sp f dp false false true false = (Ok, w') -> mv_guard w f sp dp = true ->
+  exists fo o par n fp gp,
+    resolve w f sp = Found fo o /\ resolve w' f dp = Found fo o /\
+    sp = par ++ [n] /\ lookup_link w' fp gp n = None /\
+    forall k x f0 o0 q f1 o1, walk_av (fp, gp, n) k w x f0 o0 q = Found f1 o1 -> walk k w' x f0 o0 q = Found f1 o1.
+Proof.
+  intros w f sp dp w' H G. unfold _copy in H.
+  change (Nat.ltb 1 (0 + 1 + 0)) with false in H. cbv iota in H.
+  destruct (file_exists w f) eqn:Hex; simpl negb in H; cbv iota in H; [|discriminate].
+  rewrite (proj2 (fid_eqb_eq f f) eq_refl) in H. simpl in H.
+  unfold mv_guard in G.
+  destruct (resolve w f sp) as [fo o| |] eqn:Er; try discriminate.
+  pose proof (add_link_le w f dp (Hard o) fo EOS EOS) as L.
+  destruct (add_link w f dp (Hard o) fo EOS EOS) as [ea w2] eqn:Ea. simpl in L.
+  destruct ea; try discriminate.
+  destruct (del_link_ok _ _ _ _ H) as (par & n & fp & gp & Hs & Erp & U & Hnone).
+  rewrite Hs, Erp in G.
+  destruct (walk_av (fp, gp, n) FUEL w2 false f 0 dp) as [f1 o1| |] eqn:Eav; try discriminate.
+  apply andb_true_iff in G. destruct G as [G1 G2]. apply fid_eqb_eq in G1. apply Nat.eqb_eq in G2. subst f1 o1.
+  exists fo, o, par, n, fp, gp. split; auto. split; [|split; [now apply split_last_app|split; auto]].
+  - unfold resolve. eapply walk_av_unlinked; eauto.
+  - intros k x f0 o0 q f1 o1 Hq. eapply walk_av_unlinked; eauto. eapply walk_av_mono; eauto.
+Qed.
+
+Lemma ex_mv_guard :
+  let w := run world0 [OCreate FA sx false (tiny 1); OCreate FA sxy false (tiny 2)] in
+  mv_guard w FA sx ["z"%string] = true /\ fst (mv w FA sx FA ["z"%string] false) = Ok /\
+  mv_guard w FA sx sxy = false /\ mv_guard w FA sx ["x"; "q"]%string = false.
+Proof. vm_compute. repeat split; reflexivity. Qed.
+
+(* ------------------------------------------------------------------ totality of the listing on acyclic stores *)
+(** acyclicity as a rank that strictly decreases along every member that opens; [all_open]: no member dangles
+    or loops.  (Any acyclic link graph has such a rank bounded by its number of objects.) *)
+Definition ranked (w : world) (rk : fid -> nat -> nat) : Prop :=
+  forall f o a ls k l f1 o1, obj_at w f o = Some (Group a ls) -> In (k, l) ls ->
+    follow w f l = Found f1 o1 -> (rk f1 o1 < rk f o)%nat.
+Definition all_open (w : world) : Prop :=
+  forall f o a ls k l, obj_at w f o = Some (Group a ls) -> In (k, l) ls -> exists f1 o1, follow w f l = Found f1 o1.
+
+Lemma open_children_total : forall w f name ls,
+  (forall k l, In (k, l) ls -> exists f1 o1, follow w f l = Found f1 o1) ->
+  open_children w f name ls = Some (map (fun kl => (child_name name (fst kl) (snd kl), follow w f (snd kl))) ls).
+Proof.
+  unfold open_children. induction ls as [|[k l] r IH]; simpl; intros H; auto.
+  destruct (H k l (or_introl eq_refl)) as (f1 & o1 & Ef). rewrite Ef.
+  rewrite IH by (intros; eapply H; eauto). reflexivity.
+Qed.
+
+Lemma go_total : forall vis cs,
+  (forall nm r, In (nm, r) cs -> exists f1 o1, r = Found f1 o1 /\ fst (vis f1 o1 nm) = Ok) ->
+  fst (go vis cs) = Ok.
+Proof.
+  induction cs as [|[nm r] cs IH]; simpl; intros H; auto.
+  destruct (H nm r (or_introl eq_refl)) as (f1 & o1 & -> & Hv).
+  destruct (vis f1 o1 nm) as [e sub]. simpl in Hv. subst e.
+  assert (fst (go vis cs) = Ok) as Hg by (apply IH; intros; eapply H; eauto).
+  destruct (go vis cs) as [e t]. simpl in Hg. now subst e.
+Qed.
+
+(** a budget above the rank of the start object suffices: the traversal terminates without an error *)
+Theorem visit_total : forall w rk, ranked w rk -> all_open w ->
+  forall k f o name, (rk f o < k)%nat -> fst (visit k w f o name) = Ok.
+Proof.
+  intros w rk Hr Ha. induction k; intros f o name Hk; [lia|].
+  rewrite visit_unfold. destruct (obj_at w f o) as [[a ls|d]|] eqn:Eo; auto.
+  rewrite open_children_total by (intros; eapply Ha; eauto).
+  apply go_total. intros nm r Hin. apply in_map_iff in Hin. destruct Hin as ([k0 l] & E & Hin).
+  simpl in E. injection E as <- <-.
+  destruct (Ha _ _ _ _ _ _ Eo Hin) as (f1 & o1 & Ef). exists f1, o1. split; auto.
+  apply IHk. pose proof (Hr _ _ _ _ _ _ _ _ Eo Hin Ef). lia.
+Qed.
+
+(** listing_total: on an existing file of an acyclic world without dangling members whose depth is below the
+    traversal budget, list_coolers returns a listing; without external links that listing is exact *)
+Theorem listing_total : forall w rk f, ranked w rk -> all_open w -> file_exists w f = true ->
+  (rk f 0 < VISIT_FUEL)%nat -> exists L, list_coolers w f = (Ok, L).
+Proof.
+  intros w rk f Hr Ha Hex Hk. unfold list_coolers. rewrite Hex. simpl negb. cbv iota.
+  pose proof (visit_total _ _ Hr Ha VISIT_FUEL f 0%nat [] Hk) as Hv.
+  destruct (visit VISIT_FUEL w f 0 []) as [e nodes]. simpl in Hv. subst e. eauto.
+Qed.
+
+Corollary listing_total_exact : forall w rk f, ranked w rk -> all_open w -> file_exists w f = true ->
+  (rk f 0 < VISIT_FUEL)%nat -> no_ext w f -> nodup_keys w f ->
+  exists L, list_coolers w f = (Ok, L) /\
+            forall p, In p L <-> exists o2, resolves w f p f o2 /\ is_cooler_at w f o2 = true.
+Proof.
+  intros w rk f Hr Ha Hex Hk Hne Hnd. destruct (listing_total _ _ _ Hr Ha Hex Hk) as (L & HL).
+  exists L. split; auto. now apply listing_exact.
+Qed.
+
+(** executable check of [ranked] and [all_open] for a given rank function *)
+Definition obj_ranked_b (w : world) (rk : fid -> nat -> nat) (f : fid) (io : nat * obj) : bool :=
+  match snd io with
+  | Group _ ls => forallb (fun kl => match follow w f (snd kl) with
+                                     | Found f1 o1 => Nat.ltb (rk f1 o1) (rk f (fst io))
+                                     | _ => false
+                                     end) ls
+  | Dataset _ => true
+  end.
+Definition file_ranked_b (w : world) (rk : fid -> nat -> nat) (f : fid) : bool :=
+  match get_store w f with
+  | Some st => forallb (obj_ranked_b w rk f) (combine (seq 0 (List.length st)) st)
+  | None => true
+  end.
+
+Lemma nth_error_combine_seq : forall X (st : list X) o x b, nth_error st o = Some x ->
+  In ((b + o)%nat, x) (combine (seq b (List.length st)) st).
+Proof.
+  induction st as [|y r IH]; intros o x b H; [destruct o; discriminate|].
+  destruct o; simpl in *.
+  - injection H as <-. left. f_equal. lia.
+  - right. replace (b + S o)%nat with (S b + o)%nat by lia. now apply IH.
+Qed.
+
+Lemma file_ranked_b_sound : forall w rk, file_ranked_b w rk FA = true -> file_ranked_b w rk FB = true ->
+  ranked w rk /\ all_open w.
+Proof.
+  intros w rk HA HB.
+  assert (forall f o a ls k l, obj_at w f o = Some (Group a ls) -> In (k, l) ls ->
+            match follow w f l with Found f1 o1 => Nat.ltb (rk f1 o1) (rk f o) = true | _ => False end) as K.
+  { intros f o a ls k l E Hin.
+    assert (file_ranked_b w rk f = true) as Hf by (destruct f; auto).
+    unfold file_ranked_b in Hf. unfold obj_at in E. destruct (get_store w f) as [st|]; try discriminate.
+    rewrite forallb_forall in Hf. specialize (Hf _ (nth_error_combine_seq _ _ _ _ 0%nat E)).
+    unfold obj_ranked_b in Hf. simpl in Hf. rewrite forallb_forall in Hf. specialize (Hf _ Hin). simpl in Hf.
+    destruct (follow w f l); auto; discriminate. }
+  split.
+  - intros f o a ls k l f1 o1 E Hin Ef. specialize (K _ _ _ _ _ _ E Hin). rewrite Ef in K. now apply Nat.ltb_lt.
+  - intros f o a ls k l E Hin. specialize (K _ _ _ _ _ _ E Hin). destruct (follow w f l); eauto; tauto.
+Qed.
+
+(** a canonical rank: the height of the member graph below an object, on a budget *)
+Fixpoint height (k : nat) (w : world) (f : fid) (o : nat) : nat :=
+  match k with
+  | O => O
+  | S k' =>
+      match obj_at w f o with
+      | Some (Group _ ls) =>
+          S (fold_right (fun kl acc => Nat.max acc (match follow w f (snd kl) with
+                                                     | Found f1 o1 => height k' w f1 o1
+                                                     | _ => O
+                                                     end)) O ls)
+      | _ => O
+      end
+  end.
+
+Lemma ex_listing_total :
+  file_ranked_b w_listed (height 12 w_listed) FA = true /\ file_ranked_b w_listed (height 12 w_listed) FB = true /\
+  Nat.ltb (height 12 w_listed FA 0) VISIT_FUEL = true /\ file_wf_b w_listed FA = true.
+Proof. vm_compute. repeat split; reflexivity. Qed.
